@@ -225,8 +225,8 @@ def check(ctx):
         def ob(self, rule, key, ok, site="", detail="", nontrivial=True, undecided=False):
             if rule in ("R02.2", "R02.5", "R09.1", "R09.3"): return super().ob(rule, key, ok, site, detail, nontrivial, undecided)
             return ok
-    C02.check(OnlyBacklog(ctx, "R06.8")); C09.check(OnlyBacklog(ctx, "R06.8"))
-    ctx.floor("R06.8", 10)
+    util.guarded(ctx, C02.check, OnlyBacklog(ctx, "R06.8")); util.guarded(ctx, C09.check, OnlyBacklog(ctx, "R06.8"))
+    if not getattr(ctx, "deferred_infra", None): ctx.floor("R06.8", 10)
     ctx.floor("R06.1", 12); ctx.floor("R06.3", 13); ctx.floor("R06.4", 12); ctx.floor("R06.5", 1); ctx.floor("R06.6", 14)
 
 
